@@ -420,7 +420,10 @@ def _is_seq(e: ast.AST) -> bool:
 
 def _slice(s: ast.AST, env: Env) -> str:
     if isinstance(s, ast.Slice):
-        return ":".join("" if p is None else str(_sym(p, env)) for p in (s.lower, s.upper, s.step))
+        parts = ["" if p is None else str(_sym(p, env)) for p in (s.lower, s.upper)]
+        if s.step is not None:
+            parts.append(str(_sym(s.step, env)))
+        return ":".join(parts)
     if isinstance(s, ast.Tuple):
         return ", ".join(_slice(x, env) for x in s.elts)
     return str(_sym(s, env))
